@@ -5,7 +5,7 @@ HERE = os.path.dirname(os.path.dirname(os.path.abspath(__file__)))
 out = subprocess.run([sys.executable, os.path.join(HERE, "tools", "seeded.py")], capture_output=True, text=True).stdout
 rows = []
 for l in out.splitlines():
-    m = re.match(r"^(C\d\d-[mnpqu]\d)\s+(C\d\d)\s+(\S+)\s*(.*)$", l)
+    m = re.match(r"^(C\d\d-[mnpquw]\d)\s+(C\d\d)\s+(\S+)\s*(.*)$", l)
     if not m:
         continue
     sid, prop, status, first = m.groups()
